@@ -330,6 +330,9 @@ func registerOverrides(e *Engine) {
 		return in.bytesCmp(in.strBytes(a[0]), in.strBytes(a[1]))
 	})
 	e.reg("strings.Split", func(in *interp, fr *frame, a []value) value {
+		if f, ok := a[0].(*fmtstr); ok {
+			return in.splitFmt(f, in.cstr(a[1]))
+		}
 		parts := strings.Split(in.cstr(a[0]), in.cstr(a[1]))
 		out := make([]value, len(parts))
 		for i, p := range parts {
@@ -377,12 +380,29 @@ func registerOverrides(e *Engine) {
 		return in.utf8Valid(in.strBytes(a[0]))
 	})
 	e.reg("strconv.ParseUint", func(in *interp, fr *frame, a []value) value {
+		if f, ok := a[0].(*fmtstr); ok {
+			if len(f.num) == 1 && f.lit[0] == "" && f.lit[1] == "" {
+				return tuple{in.ctx.Resize(f.num[0], 64, false), iface{}}
+			}
+			return tuple{in.ctx.Const(64, 0), in.newErr("strconv.ParseUint: invalid syntax", nil)}
+		}
 		s := in.cstr(a[0])
 		v, err := strconv.ParseUint(s, int(asInt(a[1])), int(asInt(a[2])))
 		if err != nil {
 			return tuple{in.ctx.Const(64, 0), in.newErr("strconv.ParseUint: "+err.Error(), nil)}
 		}
 		return tuple{in.ctx.Const(64, v), iface{}}
+	})
+	e.reg("strconv.ParseFloat", func(in *interp, fr *frame, a []value) value {
+		s, ok := a[0].(string)
+		if !ok {
+			return tuple{float64(0), in.newErr("strconv.ParseFloat: symbolic input", nil)}
+		}
+		v, err := strconv.ParseFloat(s, 64)
+		if err != nil {
+			return tuple{float64(0), in.newErr("strconv.ParseFloat: "+err.Error(), nil)}
+		}
+		return tuple{v, iface{}}
 	})
 	e.reg("strconv.Itoa", func(in *interp, fr *frame, a []value) value { return strconv.Itoa(int(asInt(a[0]))) })
 	e.reg("strconv.FormatBool", func(in *interp, fr *frame, a []value) value {
@@ -432,12 +452,12 @@ func registerOverrides(e *Engine) {
 				}
 			}
 		}
-		return in.newErr(in.sprintf(in.cstr(a[0]), args).(string), cause)
+		return in.newErr(fmt.Sprint(in.sprintf(in.cstr(a[0]), args)), cause)
 	}
 	e.reg("fmt.Errorf", errf)
 	e.reg("github.com/pkg/errors.Errorf", func(in *interp, fr *frame, a []value) value {
 		args, _ := a[1].([]value)
-		return in.newErr(in.sprintf(in.cstr(a[0]), args).(string), nil)
+		return in.newErr(fmt.Sprint(in.sprintf(in.cstr(a[0]), args)), nil)
 	})
 	e.reg("github.com/pkg/errors.New", func(in *interp, fr *frame, a []value) value { return in.newErr(in.cstr(a[0]), nil) })
 	wrap := func(in *interp, fr *frame, a []value) value {
@@ -594,11 +614,23 @@ func (in *interp) utf8Valid(b []*sym.Term) *sym.Term {
 	return valid[0]
 }
 
+func intTermOf(v value) *sym.Term {
+	if i, ok := v.(iface); ok {
+		v = i.v
+	}
+	t, _ := v.(*sym.Term)
+	if t != nil && t.W == 0 {
+		return nil
+	}
+	return t
+}
+
 // sprintf: concrete formatting of the verbs the code uses; symbolic operands yield a marker.
 func (in *interp) sprintf(format string, args []value) value {
 	var sb strings.Builder
 	ai := 0
 	symbolic := false
+	fs := &fmtstr{}
 	for i := 0; i < len(format); i++ {
 		ch := format[i]
 		if ch != '%' {
@@ -625,6 +657,15 @@ func (in *interp) sprintf(format string, args []value) value {
 			sb.WriteString("%!" + string(verb) + "(MISSING)")
 			continue
 		}
+		if verb == 'd' {
+			if t := intTermOf(args[ai]); t != nil && !t.IsConst() {
+				fs.lit = append(fs.lit, sb.String())
+				fs.num = append(fs.num, t)
+				sb.Reset()
+				ai++
+				continue
+			}
+		}
 		s, ok := in.fmtArg(args[ai], verb)
 		ai++
 		if !ok {
@@ -634,6 +675,10 @@ func (in *interp) sprintf(format string, args []value) value {
 	}
 	if symbolic {
 		return fmtMarker + sb.String()
+	}
+	if len(fs.num) > 0 {
+		fs.lit = append(fs.lit, sb.String())
+		return fs
 	}
 	return sb.String()
 }
